@@ -49,6 +49,8 @@ def spell_int(v, rng, noncanon):
 
 def gen_float(rng, prof):
     r = rng.random()
+    if r < 0.04:
+        return rng.choice([0.0, -0.0])         # both zeros: equal as numbers, different as text and as doubles
     if r < 0.3:
         return float(rng.randint(0, 1000))
     if r < 0.7:
@@ -68,6 +70,8 @@ def spell_float(x, rng, noncanon):
     if noncanon and rng.random() < 0.5 and x == int(x) and abs(x) < 10 ** 6:
         iv = int(x)
         c = rng.random()
+        if iv == 0 and math.copysign(1.0, x) < 0:
+            return "-0" if c < 0.4 else "-0.00"
         if c < 0.4:
             return str(iv)
         if c < 0.7 and iv != 0 and iv % 10 == 0:
@@ -559,7 +563,8 @@ def make_file(fmt, rng, n, prof="normal", style=None):
 
 def float_close(a, b, ulp=4):
     if a == b:
-        return True
+        # the two zeros are different doubles: '-0.0' denotes the one with the sign bit
+        return not (a == 0 and isinstance(a, float) and isinstance(b, float) and math.copysign(1.0, a) != math.copysign(1.0, b))
     if isinstance(a, float) and isinstance(b, float) and math.isnan(a) and math.isnan(b):
         return True
     try:
